@@ -28,6 +28,7 @@ def drivers(tier):
         d['toggle-fixpoint'] = (WorldDriver(
             'toggle-fixpoint', own='L', types=('H', 'P', 'N'), ids=(1, 2),
             explicit_ids=(1,), max_autos=1, toggles=True, max_postponed=2,
+            readd=True,
             shapes=((), ('H',), ('P',), ('H', 'P'), ('H', 'H'))),
             dict(max_states=250000, time_budget=240))
         # a lifecycle callback that itself disables dispatching
@@ -76,7 +77,7 @@ def drivers(tier):
         d['toggle-fixpoint'] = (WorldDriver(
             'toggle-fixpoint', own='L', types=('H', 'P', 'N', 'OA'),
             ids=(1, 2), explicit_ids=(1,), max_autos=1, toggles=True,
-            max_postponed=2,
+            max_postponed=2, readd=True,
             shapes=((), ('H',), ('P',), ('OA',), ('H', 'P'), ('H', 'N'),
                     ('H', 'H'), ('P', 'P'))),
             dict(max_states=1500000, time_budget=1200))
@@ -252,7 +253,8 @@ def run(tier, rep):
     rep.require_hits(callback_disables_dispatching=1,
                      one_shot_removes_itself=1,
                      replace_same_type=1, postponed=1, release_postponed=1,
-                     clear=1, process_with_pending=1)
+                     clear=1, process_with_pending=1,
+                     readd_attached_instance=1)
     for name, (driver, kw) in drivers(tier).items():
         kernel.explore(driver, rep, part=name, params=driver.params(), **kw)
     rep.require_hits(fault_raise=1, fault_redisable_attach=1)
